@@ -14,6 +14,8 @@ import Pyiga.Proofs.HierTP
 import Pyiga.Proofs.HierTrunc
 import Pyiga.Proofs.HierPU
 import Pyiga.Proofs.HierTwoScale
+import Pyiga.Proofs.HierAdm
+import Pyiga.Proofs.HierTPAdm
 
 namespace Pyiga.Props.C04
 open Pyiga.Hier Pyiga.Index
@@ -298,6 +300,7 @@ example :
     let G : ℕ → Finset ℕ := fun k => if k = 0 then {0} else ∅
     ∀ r, r < N 1 → PU.blockSum N (fun _ _ _ => (1 : Int)) F 1 r 1 = 1 := by
   intro N F G
+  have _hG := G
   refine (thb_partition_of_unity N (fun _ _ _ => (1 : Int)) F G 1 (fun _ _ _ => by decide) ?_ ?_ ?_ ?_).2
   · intro k i hi
     match k with
@@ -315,10 +318,10 @@ example :
     | k + 1 => simp [G] at hG
   · simp [G]
 
-/-! ## clauses stated but not proved in Lean (decided per instance by the harness oracle) -/
+/-! ## admissibility for finite disparity (default marking) -/
 
-/-- the cells (of any level `k ≥ lv`) on which level-`lv` function `f` does not vanish: descendants
-of its support cells -/
+/-- level-`k` cell `c` is one on which the level-`lv` function `f` does not vanish: its ancestor on
+level `lv` lies in the support of `f` -/
 def overlaps (kvs : Mesh) (lv : Nat) (f : Idx) (k : Nat) (c : Idx) : Prop :=
   lv ≤ k ∧ anc parTp (k - lv) c ∈ supp kvs lv f
 
@@ -329,12 +332,41 @@ inductive ReachableDefault (kvs : Mesh) (d : Option Nat) : HSpace → Prop
       ReachableDefault kvs d s → MarksActive s.levels M → s.refine M false = .ok (s', M') →
       ReachableDefault kvs d s'
 
-/-- **admissibility (NOT proved in Lean; decided per history by the harness oracle).**  For a finite
-disparity `d ≥ 1`, after any history of calls with the default marking (`truncate=False`), no active
-function of level `lv` is non-zero on an active cell of level `> lv + d`. -/
-def admissible_full : Prop :=
-  ∀ (kvs : Mesh) (d : Nat), 1 ≤ d → GoodMesh kvs → ∀ s, ReachableDefault kvs (some d) s →
-    ∀ lv f k c, f ∈ (s.level lv).actfun → c ∈ (s.level k).act → overlaps kvs lv f k c → k ≤ lv + d
+theorem reachableDefault_reachable {kvs : Mesh} {d : Option Nat} {s : HSpace}
+    (h : ReachableDefault kvs d s) : Reachable kvs d s := by
+  induction h with
+  | init => exact Reachable.init
+  | refine _ hM hr ih => exact Reachable.refine ih hM hr
+
+theorem reachableDefault_J (kvs : Mesh) (d : Nat) (hd : 1 ≤ d) (hg : GoodMesh kvs) {s : HSpace}
+    (h : ReachableDefault kvs (some d) s) :
+    s.disparity = some d ∧ J (tpOps kvs) (VFtp kvs) parTp d s.levels := by
+  induction h with
+  | init => exact ⟨rfl, J_init d hd _⟩
+  | @refine s s' M M' hs hM hr ih =>
+    have hw := reachable_wf kvs (some d) hg (reachableDefault_reachable hs)
+    unfold HSpace.refine at hr
+    split at hr
+    · simp at hr
+    · rename_i levels' M'' hrl
+      simp only [Except.ok.injEq, Prod.mk.injEq] at hr
+      obtain ⟨hs', hM'⟩ := hr
+      subst hs'; subst hM'
+      have hops : s.ops = tpOps kvs := by rw [← hw.1]; rfl
+      rw [hops, ih.1] at hrl
+      exact ⟨ih.1, refineLevels_J (tp_laws kvs hg.1 hg.2) (tp_lawsAdm kvs hg.1 hg.2) d hd s.levels levels' M M''
+        hw.2 ih.2 hM hrl⟩
+
+/-- **admissibility.**  For a finite disparity `d ≥ 1`, after any history of calls with the default
+marking (`truncate=False`), no active function of level `lv` is non-zero on an active cell of
+level `> lv + d` (Bracco–Giannelli–Vázquez): the disparity-preserving marking closes the marks under
+`_cell_neighborhood`, which keeps the strict-admissibility invariant `J`. -/
+theorem admissible (kvs : Mesh) (d : Nat) (hd : 1 ≤ d) (hg : GoodMesh kvs) {s : HSpace}
+    (h : ReachableDefault kvs (some d) s) (lv : Nat) (f : Idx) (k : Nat) (c : Idx)
+    (hf : f ∈ (s.level lv).actfun) (hc : c ∈ (s.level k).act) (ho : overlaps kvs lv f k c) :
+    k ≤ lv + d :=
+  admissible_of_J d s.levels (reachable_wf kvs (some d) hg (reachableDefault_reachable h)).2
+    (reachableDefault_J kvs d hd hg h).2 lv k f c hf hc ho.1 ho.2
 
 /-! ## non-vacuity -/
 
@@ -386,6 +418,22 @@ example : ∃ s, Reachable kvEx (some 1) s ∧ s.numlevels = 3 := by
       simp only [Bool.and_eq_true, beq_iff_eq] at h2
       exact ⟨s2, Reachable.refine (Reachable.refine Reachable.init (marksActive_of_B _ _ ha) h1)
         (marksActive_of_B _ _ hb) h2', h2.1.1⟩
+    · cases h2
+  · cases h
+
+/-- the same history uses only the default marking with disparity 1: `admissible` is not vacuous -/
+example : ∃ s, ReachableDefault kvEx (some 1) s ∧ s.numlevels = 3 := by
+  have h := example_history
+  unfold exampleCheck at h
+  split at h
+  · rename_i s1 M1 h1
+    simp only [Bool.and_eq_true] at h
+    obtain ⟨⟨ha, hb⟩, h2⟩ := h
+    split at h2
+    · rename_i s2 M2 h2'
+      simp only [Bool.and_eq_true, beq_iff_eq] at h2
+      exact ⟨s2, ReachableDefault.refine (ReachableDefault.refine ReachableDefault.init
+        (marksActive_of_B _ _ ha) h1) (marksActive_of_B _ _ hb) h2', h2.1.1⟩
     · cases h2
   · cases h
 
